@@ -80,8 +80,16 @@ Fixpoint setting_value (ss : list (N * N)) (id : N) : option N :=
 
 Definition drop_last (p : bytes) (n : N) : bytes := firstn (length p - N.to_nat n) p.
 
-(* typeFrameParser(fh.Type)(fh, payload); emptyok = h2_headers_empty_frag_ok *)
-Definition parse_payload (emptyok : bool) (fh : fhdr) (p : bytes) : hout fbody :=
+(* the comparisons of the three padded parsers, as the source has them (Gen/H2Src.v):
+   sw_empty   parseHeadersFrame: `len(p)-padLength < 0` (true) or `<= 0` (false: an empty fragment is an error)
+   sw_data_gt parseDataFrame:    `padSize > len(payload)` (true) or `>=` (false), payload without the Pad Length octet
+   sw_push_gt parsePushPromise:  `padLength > len(p)` (true) or `>=` (false), p without Pad Length and Promised Stream ID *)
+Record psw := mkPsw { sw_empty : bool; sw_data_gt : bool; sw_push_gt : bool }.
+Definition psw_ok : psw := mkPsw true true true.
+Definition psw_src : psw := mkPsw h2_headers_empty_frag_ok h2_data_pad_gt h2_push_pad_gt.
+
+(* typeFrameParser(fh.Type)(fh, payload) *)
+Definition parse_payload (sw : psw) (fh : fhdr) (p : bytes) : hout fbody :=
   let t := fh_type fh in
   let sid := fh_sid fh in
   let fl := fh_flags fh in
@@ -90,7 +98,8 @@ Definition parse_payload (emptyok : bool) (fh : fhdr) (p : bytes) : hout fbody :
     else if flag fl F_PADDED then
       match p with
       | [] => HErr E_EOF
-      | pad :: p' => if len p' <? pad then HErr EProtocol else HOk (BData (drop_last p' pad))
+      | pad :: p' => if (if sw_data_gt sw then len p' <? pad else len p' <=? pad) then HErr EProtocol
+                     else HOk (BData (drop_last p' pad))
       end
     else HOk (BData p)
   else if t =? T_HEADERS then
@@ -106,7 +115,7 @@ Definition parse_payload (emptyok : bool) (fh : fhdr) (p : bytes) : hout fbody :
                   else HOk (None, p1) in
         hbind r2 (fun y =>
           let pr := fst y in let p2 := snd y in
-          if (len p2 <? pad) || (negb emptyok && (len p2 =? pad)) then HErr EStream
+          if (len p2 <? pad) || (negb (sw_empty sw) && (len p2 =? pad)) then HErr EStream
           else HOk (BHeaders pr (drop_last p2 pad))))
   else if t =? T_PRIORITY then
     if sid =? 0 then HErr EProtocol
@@ -133,7 +142,7 @@ Definition parse_payload (emptyok : bool) (fh : fhdr) (p : bytes) : hout fbody :
         let pad := fst x in let p1 := snd x in
         if len p1 <? 4 then HErr E_EOF
         else let p2 := skipn 4 p1 in
-             if len p2 <? pad then HErr EProtocol
+             if (if sw_push_gt sw then len p2 <? pad else len p2 <=? pad) then HErr EProtocol
              else HOk (BPush (rd_u32 p1 mod two31) (drop_last p2 pad)))
   else if t =? T_PING then
     if negb (len p =? 8) then HErr EFrameSize
@@ -291,7 +300,7 @@ Inductive raw :=
 
 Definition slice (data : bytes) (off n : N) : bytes := firstn (N.to_nat n) (skipn (N.to_nat off) data).
 
-Definition read_raw (emptyok : bool) (last mx : N) (data : bytes) (off : N) : raw :=
+Definition read_raw (emptyok : psw) (last mx : N) (data : bytes) (off : N) : raw :=
   if len data <? off + 9 then WAgain
   else
     let fh := parse_fhdr (skipn (N.to_nat off) data) in
@@ -320,7 +329,7 @@ Inductive collected :=
 | CStream          (* stream error of a nested frame, not drained (only when the repaired conversion is absent) *)
 | CFuel.
 
-Fixpoint collect (emptyok adv drains : bool) (fuel : nat) (last mx : N) (data : bytes) (off msize : N) (acc : list bytes) : collected :=
+Fixpoint collect (emptyok : psw) (adv drains : bool) (fuel : nat) (last mx : N) (data : bytes) (off msize : N) (acc : list bytes) : collected :=
   match fuel with
   | O => CFuel
   | S f =>
@@ -339,7 +348,7 @@ Fixpoint collect (emptyok adv drains : bool) (fuel : nat) (last mx : N) (data : 
   end.
 
 (* MFramer.ReadFrame(data, 0) *)
-Definition read_frame_gen (emptyok adv drains : bool) (st : fstate) (data : bytes) : rres :=
+Definition read_frame_gen (emptyok : psw) (adv drains : bool) (st : fstate) (data : bytes) : rres :=
   match read_raw emptyok (fs_last st) (fs_max st) data 0 with
   | WAgain => RAgain
   | WConn e => RConn e
@@ -380,7 +389,7 @@ Definition read_frame_gen (emptyok adv drains : bool) (st : fstate) (data : byte
       end
   end.
 
-Definition read_frame := read_frame_gen h2_headers_empty_frag_ok h2_cont_advance h2_stream_err_drains.
+Definition read_frame := read_frame_gen psw_src h2_cont_advance h2_stream_err_drains.
 
 (* ReadPreface *)
 Definition client_preface : bytes :=
@@ -465,7 +474,7 @@ Inductive devent := EvFrame (f : frame) | EvStreamErr | EvConnErr (e : herr).
 Record cstate := mkC { c_buf : bytes; c_fs : fstate; c_out : list devent; c_dead : bool }.
 
 (* `cont` = h2_dispatch_continues: a stream error does not stop the loop *)
-Fixpoint drain_loop_gen (eo adv drains cont : bool) (fuel : nat) (s : cstate) : cstate :=
+Fixpoint drain_loop_gen (eo : psw) (adv drains cont : bool) (fuel : nat) (s : cstate) : cstate :=
   match fuel with
   | O => s
   | S f =>
@@ -483,12 +492,12 @@ Fixpoint drain_loop_gen (eo adv drains cont : bool) (fuel : nat) (s : cstate) : 
   end.
 
 (* one read event: append the chunk, dispatch *)
-Definition feed_gen (eo adv drains cont : bool) (s : cstate) (chunk : bytes) : cstate :=
+Definition feed_gen (eo : psw) (adv drains cont : bool) (s : cstate) (chunk : bytes) : cstate :=
   if c_dead s then s
   else let b := c_buf s ++ chunk in
        drain_loop_gen eo adv drains cont (S (length b)) (mkC b (c_fs s) (c_out s) false).
 
-Definition feed := feed_gen h2_headers_empty_frag_ok h2_cont_advance h2_stream_err_drains h2_dispatch_continues.
+Definition feed := feed_gen psw_src h2_cont_advance h2_stream_err_drains h2_dispatch_continues.
 
 Definition c_init : cstate := mkC [] fs_new [] false.
 
